@@ -11,6 +11,8 @@ use serde_json::json;
 const DEFAULT_ID: &str = "1234567812345678";
 
 struct Sample {
+    /// private key when the harness knows it (crafted cases need it)
+    d: Option<BigUint>,
     pk: (BigUint, BigUint),
     lpk: Sm2PublicKey,
     id: Option<&'static str>,
@@ -91,6 +93,20 @@ fn fault_space(ctx: &mut Ctx, s: &Sample, p: &mut Prng, other: &Sample, small_s:
         probe(ctx, s, &s.lpk, &s.pk, s.id, &s.id_str, &s.msg, &with_component(&s.sig, 0, v), &format!("r{}", name), false);
         probe(ctx, s, &s.lpk, &s.pk, s.id, &s.id_str, &s.msg, &with_component(&s.sig, 1, v), &format!("s{}", name), false);
     }
+    // crafted with the private key: r = e mod n, s = -r d (1+d)^-1, so that [s]G + [t]P = O; a verifier that
+    // converts the point at infinity to affine (0, 0) would compute R = e = r and accept
+    if let Some(d) = &s.d {
+        let e = r2::digest_e(s.id_str.as_bytes(), &s.pk, &s.msg) % &c.n;
+        if !e.is_zero() {
+            let inv = (BigUint::one() + d).modinv(&c.n).unwrap();
+            let sv2 = (&c.n - (&e * d % &c.n) * inv % &c.n) % &c.n;
+            if !sv2.is_zero() && !((&e + &sv2) % &c.n).is_zero() {
+                let mut sig = r2::b32(&e).to_vec();
+                sig.extend_from_slice(&r2::b32(&sv2));
+                probe(ctx, s, &s.lpk, &s.pk, s.id, &s.id_str, &s.msg, &sig, "sG+tP=infinity", false);
+            }
+        }
+    }
     // s = n - r  (t = r + s = 0 mod n)
     probe(ctx, s, &s.lpk, &s.pk, s.id, &s.id_str, &s.msg, &with_component(&s.sig, 1, &(&c.n - &r)), "s=n-r", false);
     // swapped
@@ -167,7 +183,7 @@ pub fn run(ctx: &mut Ctx) {
     for (n, ok) in r2::selftest() {
         ctx.selftest(&n, ok);
     }
-    ctx.require(&["valid_accepted", "bitflip_r", "bitflip_s", "r=0", "s=0", "r=n", "s=n", "s=n+1", "r=2^256-1", "s=2^256-1", "s=n-r", "swapped_r_s", "s+n", "s_plus_n_alias", "msg_extended", "msg_bitflip", "id_changed", "key_changed", "len<64", "len>64", "random_pair", "openssl_made"]);
+    ctx.require(&["valid_accepted", "bitflip_r", "bitflip_s", "r=0", "s=0", "r=n", "s=n", "s=n+1", "r=2^256-1", "s=2^256-1", "s=n-r", "sG+tP=infinity", "swapped_r_s", "s+n", "s_plus_n_alias", "msg_extended", "msg_bitflip", "id_changed", "key_changed", "len<64", "len>64", "random_pair", "openssl_made"]);
     let c = r2::curve();
     let mut samples: Vec<Sample> = vec![];
     let mut prng = ctx.prng("samples");
@@ -191,7 +207,7 @@ pub fn run(ctx: &mut Ctx) {
         let (r, s) = r2::sign(&d, id_str.as_bytes(), &msg, &k)?;
         let mut sig = r.to_vec();
         sig.extend_from_slice(&s);
-        Some(Sample { lpk: lib_pk(&pk)?, pk, id, id_str, msg, sig, origin: "reference-made" })
+        Some(Sample { d: Some(d), lpk: lib_pk(&pk)?, pk, id, id_str, msg, sig, origin: "reference-made" })
     };
     // sample 0 on every shard is the "other key" donor
     let donor = mk(&mut ctx.prng("donor"), 1000).expect("donor sample");
@@ -217,7 +233,7 @@ pub fn run(ctx: &mut Ctx) {
         let id_str = v["id"].as_str().unwrap().to_string();
         let Some(lpk) = lib_pk(&pk) else { continue };
         ctx.class("openssl_made");
-        samples.push(Sample { pk, lpk, id: Some(leak(id_str.clone())), id_str, msg: corpus::hexf(v, "msg"), sig: corpus::hexf(v, "sig_rs"), origin: "openssl-made" });
+        samples.push(Sample { d: Some(d), pk, lpk, id: Some(leak(id_str.clone())), id_str, msg: corpus::hexf(v, "msg"), sig: corpus::hexf(v, "sig_rs"), origin: "openssl-made" });
     }
     // crafted small-s witnesses: (r, s+n) is a 64-byte string that only the range check on s rejects
     let cr = corpus::load("sm2_crafted.json");
@@ -238,7 +254,7 @@ pub fn run(ctx: &mut Ctx) {
             let mut sig = r.to_vec();
             sig.extend_from_slice(&s);
             if let Some(lpk) = lib_pk(&pk) {
-                small.push(Sample { pk, lpk, id: None, id_str: DEFAULT_ID.to_string(), msg, sig, origin: "crafted-small-s" });
+                small.push(Sample { d: Some(d), pk, lpk, id: None, id_str: DEFAULT_ID.to_string(), msg, sig, origin: "crafted-small-s" });
             }
         }
     }
